@@ -109,6 +109,8 @@ std::string propSched(const FmmCase& c, const std::string& prop){
     {
         std::unique_ptr<TaskAlgo> algo;
         Kernel::defaultCtx() = &ctxB;
+        // the runtime may have another number of workers while the executor object is built (omp_set_num_threads, Specx team size)
+        if(RT != 3 && c.threadsCtor > 0) S.reset(c.threadsCtor, c.sched);
         if(c.variant == 1){
             // documented construction from the configuration only: the executor creates the kernel(s) itself
             if(c.lstop == -100) algo.reset(new TaskAlgo(config)); else algo.reset(new TaskAlgo(config, long(c.lstop)));
@@ -204,7 +206,7 @@ pbt::GenCfg cfgFor(const std::string& prop, const hc::Args& a){
     g.maxH = int(a.getInt("maxh", hmax[Dim]));
     g.maxN = int(a.getInt("maxn", 150));
     g.maxNextra = NX;
-    g.schedules = true;
+    g.schedules = true; g.varyThreads = (RT != 3);
     g.executors = 1 << RT;
     g.lstops = true;
     g.variants = 2;
